@@ -113,6 +113,14 @@ var c13StmtCtx = []struct {
 	{"multi-value case body", "switch (c1) { case 1, 2, /x/ { ", " } }", false},
 	{"default body", "switch (c1) { case 1 { y = 1; } default { ", " } }", false},
 	{"after statement", "y = 1; ", " y = 2;", false},
+	{"after return in if body", "if (c1) { return 1; ", " }", false},
+	{"after return in else body", "if (c1) { y = 1; } else { return 2; ", " }", false},
+	{"after return in while body", "while (c1) { return 1; ", " }", false},
+	{"after return in foreach body", "foreach e in [1] { return e; ", " }", false},
+	{"after return in function body", "function h2(p) { return p; ", " }", true},
+	{"after return in case body", "switch (c1) { case 1 { return 1; ", " } }", false},
+	{"after return at top level", "return 1; ", "", false},
+	{"before return in if body", "if (c1) { ", " return 1; }", false},
 }
 
 // expression-level invalid fragments
